@@ -79,6 +79,13 @@ def m3(ck, em, rng, count):
             else:
                 cut = sorted(set(r.randint(1, n, size=r.randint(1, 3)).tolist()))
             chunks = tuple(int(s) for s in np.diff([0] + cut + [n]))
+        if t % 4 == 1 and chunks is None:
+            # the caller's array OBJECT was used for training before and has been rewritten in place since (centred,
+            # normalised, refilled): every run below is handed this very object
+            buf = np.ascontiguousarray(X * 3.0 + 7.0)
+            gt.fit(gt.new_machine(em, init, 2, None, (True, True, True)), buf)
+            buf[...] = X
+            X = buf
         obj = lambda m: float(np.asarray(m.log_likelihood(X)).mean())
         ms, A = gt.trajectory(em, X, init, cap, sw, obj, chunks)
         # half of the traces: the threshold is placed 2 % beside the (pooled) relative change of one iteration of this
